@@ -15,6 +15,8 @@ FILEMAP = {"qartod.py": ["C01", "C02", "C15", "C16", "C17"], "argo.py": ["C01", 
 checks_arg = sys.argv[3].split(",") if len(sys.argv) > 3 else None
 for diff in sorted(out.glob("refactor?.diff")):
     n = diff.stem[-1]
+    if os.environ.get("ONLY") and n not in os.environ["ONLY"].split(","):
+        continue
     meta = json.loads((out / f"meta{n}.json").read_text()) if (out / f"meta{n}.json").exists() else {}
     wt = Path(f"/tmp/vf-scratch-bext-{pid}-{n}")
     subprocess.run(f"git -C /repo worktree add -q --detach {wt} HEAD", shell=True, check=True, capture_output=True)
